@@ -477,3 +477,79 @@ Proof.
     + rewrite Nat.add_0_r. split; [exact Hne|]. apply HP. exact Hne.
     + replace (i + S j)%nat with (S i + j)%nat by lia. cbn [nth]. apply HE. cbn in Hj. lia.
 Qed.
+
+(* ================================================================== Encodes: a sheet row *)
+Lemma foldM_map {E S X Y} (f : X -> Y -> result E X) (g : S -> Y) l a :
+  foldM f (map g l) a = foldM (fun a x => f a (g x)) l a.
+Proof. revert a. induction l as [|x l IH]; intros a; cbn; [reflexivity|]. destruct (f a (g x)); [apply IH|reflexivity]. Qed.
+
+Lemma foldM_ext {E S X} (f g : X -> S -> result E X) l a :
+  (forall a x, f a x = g a x) -> foldM f l a = foldM g l a.
+Proof. intros H. revert a. induction l as [|x l IH]; intros a; cbn; [reflexivity|]. rewrite H. destruct (g a x); [apply IH|reflexivity]. Qed.
+
+Lemma split_char_ne sep s : split_char sep s <> [].
+Proof.
+  induction s as [|c r IH]; cbn; [discriminate|]. destruct (c =? sep); [discriminate|].
+  destruct (split_char sep r); discriminate.
+Qed.
+
+Lemma cols_of_paths data : paths_ne (cols_of data).
+Proof.
+  unfold cols_of, paths_ne. apply Forall_forall. intros pc Hin. apply in_map_iff in Hin.
+  destruct Hin as [kc [<- _]]. cbn [fst]. apply split_char_ne.
+Qed.
+
+Lemma parse_cols_cols_of root data o :
+  parse_cols root (flat_map (expand_cell (star_lengths data)) data) o = foldM (fa root) (cols_of data) o.
+Proof. unfold parse_cols, cols_of. rewrite foldM_map. apply foldM_ext. intros a x. reflexivity. Qed.
+
+Lemma dget_filter_some d k o : dget d k = Some o -> o <> ONone -> dget (filter not_none d) k = Some o.
+Proof.
+  unfold dget. induction d as [|[k' o'] r IH]; cbn [oget]; [discriminate|]. intros H Ho.
+  destruct (str_eqb k' k) eqn:E.
+  - injection H as ->. cbn [filter]. replace (not_none (k', o)) with true by (destruct o; try reflexivity; congruence).
+    cbn [oget]. rewrite E. reflexivity.
+  - cbn [filter]. destruct (not_none (k', o')); [cbn [oget]; rewrite E|]; apply IH; assumption.
+Qed.
+
+Lemma dget_filter_none d k : dget d k = None -> dget (filter not_none d) k = None.
+Proof.
+  unfold dget. induction d as [|[k' o'] r IH]; cbn [oget]; [reflexivity|]. intros H.
+  destruct (str_eqb k' k) eqn:E; [discriminate|].
+  cbn [filter]. destruct (not_none (k', o')); [cbn [oget]; rewrite E|]; apply IH; assumption.
+Qed.
+
+Lemma validate_fields_filter d fields fs :
+  validate_fields d fields = Ok fs -> validate_fields (filter not_none d) fields = Ok fs.
+Proof.
+  revert fs. induction fields as [|[n [tf dflt]] r IH]; intros fs H; [exact H|].
+  cbn [validate_fields] in *.
+  destruct (dget d n) as [o|] eqn:Eg.
+  - destruct (validate tf o) as [v|e] eqn:Ev; [|discriminate].
+    assert (Ho : o <> ONone) by (intros ->; rewrite validate_none in Ev; discriminate).
+    rewrite (dget_filter_some d n o Eg Ho), Ev. cbn [bind] in *.
+    destruct (validate_fields d r) as [vs|e]; [|discriminate]. rewrite (IH vs eq_refl). exact H.
+  - rewrite (dget_filter_none d n Eg).
+    destruct dflt as [dv|]; [|discriminate]. cbn [bind] in *.
+    destruct (validate_fields d r) as [vs|e]; [|discriminate]. rewrite (IH vs eq_refl). exact H.
+Qed.
+
+(* 1. every way of writing the row parses to the value *)
+Theorem encodes_parse rm v cells : Encodes rm v cells -> parse_row rm cells = Ok v.
+Proof.
+  intros [data Hm Hrk HE]. unfold parse_row. rewrite Hrk. cbn [bind].
+  rewrite parse_cols_cols_of.
+  destruct (proj1 enc_sound _ _ _ _ HE) as [Hemp Hne].
+  assert (Hcols : cols_of data <> []) by (intros H; specialize (Hemp H); discriminate).
+  destruct (Hne Hcols) as [o [Hf Hv]].
+  rewrite (fold_slot_spread _ _ ONone (cols_of_paths data) Hcols) in Hf.
+  destruct (rm_ty rm) as [| | | | | |fields h2f f2h] eqn:Et; try discriminate.
+  cbn [init_slot is_list_ty is_model_ty] in Hf. rewrite Hf. cbn [bind].
+  destruct o as [| | | | | |d]; try (cbn in Hv; discriminate).
+  rewrite validate_model in *. destruct (validate_fields d fields) as [fs|e] eqn:Evf; [|discriminate].
+  rewrite (validate_fields_filter d fields fs Evf). exact Hv.
+Qed.
+
+(* 2. the parse depends on the value only, not on the layout *)
+Theorem layout_independent rm v c1 c2 : Encodes rm v c1 -> Encodes rm v c2 -> parse_row rm c1 = parse_row rm c2.
+Proof. intros H1 H2. rewrite (encodes_parse _ _ _ H1), (encodes_parse _ _ _ H2). reflexivity. Qed.
